@@ -33,22 +33,54 @@ EPS_Q = [1, 10 ** 6]
 # ------------------------------------------------------------------------------------------------
 # grids
 
-def grid_spec(m, extra_pad=0, file_centres=False, xyz_only=False):
+def _lonlat(p):
+    return math.degrees(math.atan2(p[1], p[0])), math.degrees(math.asin(max(-1.0, min(1.0, p[2]))))
+
+
+def grid_spec(m, extra_pad=0, file_centres=False, xyz_only=False, file_edges=False, rng=None, via=None):
+    """file_centres / file_edges: the source SUPPLIES its own face / edge centres, deliberately not the
+    corner average / mid-point (moved 10-30% of the way towards a corner resp. 10-30% off the middle
+    along the edge, i.e. staying inside the element).  Value "both": lon/lat and xyz supplied;
+    "lonlat": only lon/lat (the library must derive xyz from THEM); "xyz": only xyz.  True = "both"."""
     gs = c11.grid_spec(m, extra_pad)
     if xyz_only:
         gs["xyz_only"] = True
         gs["xyz"] = [list(p) for p in m.nodes]
         return gs
+    if via:
+        gs["via"] = via
+    rnd = rng.random if rng is not None else (lambda: 0.5)
     if file_centres:
-        # centres "from the file": an interior point of each face that is not the centroid
-        fl, fa, fx, fy, fz = [], [], [], [], []
+        mode = "both" if file_centres is True else file_centres
+        pts = []
         for f in m.faces:
             c = meshgen._norm(tuple(sum(m.nodes[i][k] for i in f) for k in range(3)))
-            p = meshgen._norm(tuple(0.7 * c[k] + 0.3 * m.nodes[f[0]][k] for k in range(3)))
-            fx.append(p[0]); fy.append(p[1]); fz.append(p[2])
-            fl.append(math.degrees(math.atan2(p[1], p[0])))
-            fa.append(math.degrees(math.asin(max(-1.0, min(1.0, p[2])))))
-        gs["face"] = {"face_lon": fl, "face_lat": fa, "face_x": fx, "face_y": fy, "face_z": fz}
+            corner = m.nodes[f[int(rnd() * len(f)) % len(f)]]
+            t = 0.1 + 0.2 * rnd()
+            pts.append(meshgen._norm(tuple((1 - t) * c[k] + t * corner[k] for k in range(3))))
+        d = {}
+        if mode in ("both", "lonlat"):
+            d["face_lon"] = [_lonlat(p)[0] for p in pts]
+            d["face_lat"] = [_lonlat(p)[1] for p in pts]
+        if mode in ("both", "xyz"):
+            d["face_x"], d["face_y"], d["face_z"] = [p[0] for p in pts], [p[1] for p in pts], [p[2] for p in pts]
+        gs["face"] = d
+        gs["face_pts"] = [list(p) for p in pts]
+    if file_edges:
+        mode = "both" if file_edges is True else file_edges
+        pairs = sorted({(min(f[i], f[(i + 1) % len(f)]), max(f[i], f[(i + 1) % len(f)])) for f in m.faces for i in range(len(f))})
+        pts = []
+        for a, b in pairs:
+            t = 0.5 + (0.05 + 0.1 * rnd()) * (1 if rnd() < 0.5 else -1)
+            pts.append(meshgen._norm(tuple((1 - t) * m.nodes[a][k] + t * m.nodes[b][k] for k in range(3))))
+        d = {"edge_node_connectivity": [list(p) for p in pairs]}
+        if mode in ("both", "lonlat"):
+            d["edge_lon"] = [_lonlat(p)[0] for p in pts]
+            d["edge_lat"] = [_lonlat(p)[1] for p in pts]
+        if mode in ("both", "xyz"):
+            d["edge_x"], d["edge_y"], d["edge_z"] = [p[0] for p in pts], [p[1] for p in pts], [p[2] for p in pts]
+        gs["edge"] = d
+        gs["edge_pts"] = [list(p) for p in pts]
     return gs
 
 
@@ -65,6 +97,23 @@ def mk_grid(gs):
                                                     attrs=dict(ugrid.FACE_NODE_CONNECTIVITY_ATTRS))
         return ux.Grid(ds, source_grid_spec="UGRID")
     kw = {k: np.array(v, dtype=float) for k, v in gs.get("face", {}).items()}
+    for k, v in gs.get("edge", {}).items():
+        kw[k] = np.array(v, dtype=np.intp) if k == "edge_node_connectivity" else np.array(v, dtype=float)
+    if gs.get("via") == "dataset":
+        # the same content handed over as a UGRID-style dataset (what a file reader produces)
+        import xarray as xr
+        from uxarray.conventions import ugrid
+        ds = xr.Dataset()
+        ds["node_lon"] = xr.DataArray(np.array(gs["lon"], dtype=float), dims=["n_node"])
+        ds["node_lat"] = xr.DataArray(np.array(gs["lat"], dtype=float), dims=["n_node"])
+        ds["face_node_connectivity"] = xr.DataArray(np.array(gs["table"], dtype=np.intp), dims=["n_face", "n_max_face_nodes"],
+                                                    attrs=dict(ugrid.FACE_NODE_CONNECTIVITY_ATTRS))
+        for k, v in kw.items():
+            if k == "edge_node_connectivity":
+                ds[k] = xr.DataArray(v, dims=["n_edge", "two"], attrs=dict(ugrid.EDGE_NODE_CONNECTIVITY_ATTRS))
+            else:
+                ds[k] = xr.DataArray(v, dims=["n_" + k.split("_")[0]])
+        return ux.Grid(ds, source_grid_spec="UGRID")
     return ux.Grid.from_topology(np.array(gs["lon"], dtype=float), np.array(gs["lat"], dtype=float),
                                  np.array(gs["table"], dtype=np.intp), fill_value=FILL, **kw)
 
@@ -96,16 +145,25 @@ class TruthData:
             node = [_mp_norm(tuple(mp.mpf(float(a)) for a in p)) for p in gs["xyz"]]
         else:
             node = [c11.unit_vec(mp.radians(mp.mpf(float(la))), mp.radians(mp.mpf(float(lo)))) for lo, la in zip(gs["lon"], gs["lat"])]
+        def supplied(d, pfx):
+            if pfx + "_lon" in d:
+                return [c11.unit_vec(mp.radians(mp.mpf(float(la))), mp.radians(mp.mpf(float(lo))))
+                        for lo, la in zip(d[pfx + "_lon"], d[pfx + "_lat"])]
+            return [_mp_norm(tuple(mp.mpf(float(v)) for v in p)) for p in zip(d[pfx + "_x"], d[pfx + "_y"], d[pfx + "_z"])]
         if "face" in gs:
-            face = [c11.unit_vec(mp.radians(mp.mpf(float(la))), mp.radians(mp.mpf(float(lo))))
-                    for lo, la in zip(gs["face"]["face_lon"], gs["face"]["face_lat"])]
+            face = supplied(gs["face"], "face")
         else:
             face = []
             for row in gs["table"]:
                 cs = [node[i] for i in row if i != FILL]
                 face.append(_mp_norm(tuple(mp.fsum(c[a] for c in cs) / len(cs) for a in range(3))))
         en = np.asarray(g.edge_node_connectivity.values)
-        edge = [_mp_norm(tuple((node[int(a)][k] + node[int(b)][k]) / 2 for k in range(3))) for a, b in en]
+        if "edge" in gs:
+            if [[int(a), int(b)] for a, b in en] != [list(p) for p in gs["edge"]["edge_node_connectivity"]]:
+                raise RuntimeError("the grid does not report the supplied edge_node_connectivity")
+            edge = supplied(gs["edge"], "edge")
+        else:
+            edge = [_mp_norm(tuple((node[int(a)][k] + node[int(b)][k]) / 2 for k in range(3))) for a, b in en]
         self.unit = {"nodes": node, "face centers": face, "edge centers": edge}
         self.xyz = self.unit
         self.n = {k: len(v) for k, v in self.unit.items()}
@@ -428,7 +486,7 @@ def gen_pairs(ck):
     fixed = [(tetra, tetra, "same"), (tetra, cube, ""), (cube, tetra, ""), (cube, tri, "single-dest"), (icosa, cube, ""),
              (icosa, icosa, "same"), (octa, tri, "single-dest"), (cube, cube, "same"), (tri, cube, "tiny-source")]
     for s, d, note in fixed:
-        gs = grid_spec(s, file_centres=rng.random() < 0.3)
+        gs = grid_spec(s, file_centres=rng.choice([False, False, "both", "lonlat", "xyz"]), rng=rng)
         pairs.append((gs, gs if note == "same" else grid_spec(d), note))
     # elements EXACTLY on the poles, both hemispheres: faces centred on +-pole (polygon caps), nodes on
     # +-pole (fans), and the dual of the cap mesh (nodes on the poles); sources given by lon/lat and by
@@ -452,7 +510,10 @@ def gen_pairs(ck):
         s = meshgen.gen_mesh(rng, max_ops=rng.choice([1, 2, 4, 6]))
         if len(s.faces) + len(s.nodes) > 90:
             s = meshgen.gen_mesh(rng, max_ops=2)
-        gs = grid_spec(s, extra_pad=rng.choice([0, 1]), file_centres=rng.random() < 0.35)
+        fc = rng.choice([False, False, "both", "lonlat", "lonlat", "xyz"])
+        fe = rng.choice([False, False, False, "both", "lonlat", "xyz"])
+        gs = grid_spec(s, extra_pad=rng.choice([0, 1]), file_centres=fc, file_edges=fe, rng=rng,
+                       via="dataset" if (fc or fe) and rng.random() < 0.5 else None)
         u = rng.random()
         if u < 0.25:
             pairs.append((gs, gs, "same"))
@@ -460,7 +521,9 @@ def gen_pairs(ck):
             pairs.append((gs, None, "bisector"))
         else:
             d = meshgen.gen_mesh(rng, max_ops=rng.choice([0, 2, 4]))
-            pairs.append((gs, grid_spec(d), ""))
+            pairs.append((gs, grid_spec(d, file_centres=rng.choice([False, False, "lonlat", "xyz", "both"]),
+                                        file_edges=rng.choice([False, False, False, "lonlat", "xyz"]), rng=rng,
+                                        via=rng.choice([None, "dataset"])), ""))
     return pairs
 
 
@@ -744,8 +807,9 @@ def main(ck):
     ck.cov["rule"] = (
         "positions of the elements are taken independently of the library (nodes as supplied; face centres as supplied or the normalised mean of the corners; edge centres the normalised mid-point), great-circle oracle on the unit sphere.  Grid pairs: lat-lon meshes with FACES centred exactly on both poles, with NODES exactly on both poles (fans, dual of the cap mesh), sources given by lon/lat or by Cartesian coordinates only; coarse polyhedra with refined patches (60-90 degree edges next to short ones) with destination NODES placed 0.4%-10% off the bisector between neighbouring source elements; tetrahedron (n_node = n_face), cube, octahedron, icosahedron (more faces than nodes), single triangle as "
         "destination (one face centre) and as source, identical source/destination, + random sphere tilings (split/subdivide/"
-        "stellate/dual/partial, rotated, a fifth with a node on a pole), a third of the sources with face centres supplied "
-        "('from the file', not the centroid).  Cases: data on nodes / faces / edges (dimension name says which), rank 1-3, rows = "
+        "stellate/dual/partial, rotated, a fifth with a node on a pole), about half of the sources and destinations SUPPLY their own face and/or edge centres (moved 10-30% "
+        "off the corner average / mid-point, inside the element) as lon/lat only, xyz only or both, through from_topology or a "
+        "UGRID-style dataset; the oracle judges both coordinate types against the supplied centres.  Cases: data on nodes / faces / edges (dimension name says which), rank 1-3, rows = "
         "one-hot rows of every source element + a constant row + random rows (exact dyadics or generic floats); all three "
         "destinations; both coordinate types; NN and IDW with k in {2,3,8,n,random} and power in {0,0.5,1,1.5,2,3,5}.  "
         "Histories on the SAME source/destination grid objects: 0-3 earlier remaps (same and other kinds / coordinate types / methods), then public mutators of the source (sometimes destination) coordinates - construct_face_centers (both methods), the *_lon/*_lat and *_x/*_y/*_z setters (positions rotated among the elements, or scaled), normalize_cartesian_coordinates - then the remap under test against the oracle on the grids' current coordinates.  "
